@@ -272,6 +272,12 @@ def ident_model(rnd: random.Random, svc: int, start: int, end: int, mode: str, d
             rest = [i for i in ids if i not in pos]
             abn = [i for i in rest if rnd.random() < 0.4]
             sil = [i for i in rest if i not in abn and rnd.random() < 0.15][:1]
+            # identifiers answered with a positive response that echoes ANOTHER identifier (a confused ECU or
+            # gateway): not a positive response for the identifier asked
+            # (only where the probe itself is a complete typed request -- 22 xx xx, 31 0s xx xx --: for probes that
+            # only parse as raw bytes the client compares the service id only, see C03)
+            wrong = [i for i in rest if i not in abn and i not in sil and (i + s) % 3 == 0][:2] if svc in (0x22, 0x31) else []
+            m.setdefault("wrongecho", {}).setdefault(str(s), {})[str(sf)] = wrong
             m["pos"][str(s)][str(sf)] = pos
             m["abn"][str(s)][str(sf)] = abn
             m["sil"][str(s)][str(sf)] = sil
